@@ -111,6 +111,10 @@ def make(case):
                 payload(p2.open_job(J).init(), "DEST")
             else:
                 payload(p1.open_job(JNEW if opname != "update_sp" else {"a": 1, "c": 3}).init(), "DEST")
+        # an earlier session left a persistent state point cache: check() after the fault is asked both with it and
+        # without it (judge)
+        p1.update_cache()
+        p2.update_cache()
         P1 = signac.Project(os.path.join(root, "p1"))
         P2 = signac.Project(os.path.join(root, "p2"))
         return {"p1": P1, "p2": P2, "job": P1.open_job(J)}
@@ -216,21 +220,31 @@ def judge(ctx, case, plan, res, root, pre, post, new_sp, wit):
         ws = os.path.join(root, p, "workspace")
         names = [n for n in now[p] if model.is_id(n)]
         invalid = {n for n in names if classify_dir(ws, n) is not None}
-        ctx.monitor("invalid_dirs_reported_by_check")
-        try:
-            signac.Project(os.path.join(root, p)).check()
-            named = set()
-        except JobsCorruptedError as e:
-            named = set(e.job_ids)
-        except Exception as e:  # noqa
-            wit["error"] = repr(e)
-            ctx.violation("check-raises-other-exception", "check() itself failed after the fault", wit)
-            return True
-        if not invalid <= named:
-            wit["invalid"] = sorted(invalid)
-            wit["named"] = sorted(named)
-            ctx.violation("invalid-directory-not-reported-by-check", "a job directory neither validates nor is reported by check()", wit)
-            return True
+        fn_cache = os.path.join(root, p, model.CACHE_FILE)
+        for with_cache in (True, False):
+            if with_cache and not os.path.exists(fn_cache):
+                continue
+            if not with_cache and os.path.exists(fn_cache):
+                os.replace(fn_cache, fn_cache + ".aside")
+            ctx.monitor("invalid_dirs_reported_by_check")
+            try:
+                signac.Project(os.path.join(root, p)).check()
+                named = set()
+            except JobsCorruptedError as e:
+                named = set(e.job_ids)
+            except Exception as e:  # noqa
+                wit["error"] = repr(e)
+                ctx.violation("check-raises-other-exception", "check() itself failed after the fault", wit)
+                return True
+            finally:
+                if not with_cache and os.path.exists(fn_cache + ".aside"):
+                    os.replace(fn_cache + ".aside", fn_cache)
+            if not invalid <= named:
+                wit["invalid"] = sorted(invalid)
+                wit["named"] = sorted(named)
+                wit["persistent_cache_present"] = with_cache
+                ctx.violation("invalid-directory-not-reported-by-check", "a job directory neither validates nor is reported by check()", wit)
+                return True
         ctx.monitor("no_forged_statepoint")
         for n in set(names) - invalid:
             if n not in allowed_ids:
